@@ -1,11 +1,17 @@
 import Jap.Core.Namespace
 import Jap.Gen.NsTables
+import Jap.Gen.NsSrc
 import Jap.Lemmas.NamespaceRun
 import Jap.Lemmas.NamespaceSpec
 import Jap.Lemmas.NamespaceDict
 import Jap.Core.NamespaceMeta
 import Jap.Lemmas.NamespaceMeta
 import Jap.Lemmas.NamespaceEq
+import Jap.Lemmas.NamespaceThru
+import Jap.Lemmas.NamespaceOrder
+import Jap.Lemmas.NamespaceKeys
+import Jap.Lemmas.NamespaceInit
+import Jap.Lemmas.NamespaceNat
 /-!
 # C11 — Namespace behaves as a nested mapping addressed by dotted keys
 
@@ -251,18 +257,12 @@ theorem C11_as_flat_items (root : KV) :
 /-! ## strip_meta -/
 
 /-- the result of `strip_meta` holds no meta key at any depth, for every meta-key table -/
-theorem C11_strip_meta_free (m : List String) (root : KV) : metaFreeKV m (stripMeta m root) = true := by
-  unfold stripMeta; split
-  · rename_i h; cases root with
-    | nil => rfl
-    | cons _ _ => simp at h
-  · exact stripKV_metaFree m root
+theorem C11_strip_meta_free (m : List String) (root : KV) : metaFreeKV m (stripMeta m root) = true :=
+  stripKV_metaFree m root
 
 /-- `strip_meta` changes nothing when there is nothing to strip, hence is idempotent -/
-theorem C11_strip_meta_id (m : List String) (root : KV) (h : metaFreeKV m root = true) : stripMeta m root = root := by
-  unfold stripMeta; split
-  · rfl
-  · exact stripKV_id m root h
+theorem C11_strip_meta_id (m : List String) (root : KV) (h : metaFreeKV m root = true) : stripMeta m root = root :=
+  stripKV_id m root h
 
 theorem C11_strip_meta_idempotent (m : List String) (root : KV) :
     stripMeta m (stripMeta m root) = stripMeta m root :=
@@ -272,14 +272,9 @@ theorem C11_strip_meta_idempotent (m : List String) (root : KV) :
 theorem C11_strip_meta_lookup (m : List String) (k : SKey) (root : KV) :
     lookup k (stripMeta m root) = if isMetaName m k then none else (lookup k root).map (stripV m) := by
   unfold stripMeta
-  by_cases he : root.isEmpty = true
-  · cases root with
-    | nil => cases h : isMetaName m k <;> simp [lookup]
-    | cons _ _ => simp at he
-  · simp only [he]
-    cases hk : isMetaName m k
-    · simpa using lookup_stripKV m k hk root
-    · simpa using lookup_stripKV_meta m k hk root
+  cases hk : isMetaName m k
+  · simpa using lookup_stripKV m k hk root
+  · simpa using lookup_stripKV_meta m k hk root
 
 /-! ## get_sorted_keys -/
 
@@ -322,6 +317,282 @@ example :
 example : plainKV [(plain "a", .dct [(plain "keys", .lst [.atom 1, .tup [.atom 2]]), (plain "b", .none)]), (plain "items", .atom 3)] = true
     ∧ 2 * depthKV [(plain "a", .dct [(plain "keys", .lst [.atom 1]), (plain "b", .none)]), (plain "items", .atom 3)] + 2 ≤ 64 := by decide
 
+
+/-! ## key paths through dict values: the exact class on which the code leaves the nested dictionary
+
+`noDict` ("no dict value lies on the key path") is sufficient for the refinement but not necessary: when the walk of
+`_parse_key` fails below the dict, `__setitem__` replaces the dict by a namespace exactly as the nested dictionary
+does, reads raise `KeyError`, `pop` returns the default.  The operations that really deviate are those of
+`thruDict` / `devGet` / `devPop` (Lemmas/NamespaceThru.lean).  For every operation: outside its class the code refines
+the specification (`*_refines_exact`, no other hypothesis on dicts), inside it does not (`*_deviates`, with what it
+does instead).  These classes are the signature of the open finding C11-through-dict. -/
+
+/-- `ns[key] = v` refines the nested dictionary on every state unless a dict lies on the path AND the walk gets
+    through it -/
+theorem C11_set_refines_exact (clash : List String) (path : List String) (leaf : String) (item : V) (root : KV)
+    (hc : canonKV clash root = true) (hv : canonV clash item = true)
+    (hd : thruDict (path.map (mark clash)) root = false) :
+    absKV (setSegs (path.map (mark clash)) (mark clash leaf) item root)
+      = setK ((path ++ [leaf]).map plain) (absV item) (absKV root)
+    ∧ canonKV clash (setSegs (path.map (mark clash)) (mark clash leaf) item root) = true := by
+  rw [setSegs_exact _ _ _ _ hd, ← map_append_mark]
+  exact abs_setK clash item hv (path ++ [leaf]) root hc
+
+/-- … and inside that class it never does: the code assigns in place below the dict (second component), so the dict
+    is still on the path afterwards, whereas the nested dictionary has replaced it by a branch -/
+theorem C11_set_deviates (clash : List String) (path : List String) (leaf : String) (item : V) (root : KV)
+    (hc : canonKV clash root = true) (hv : canonV clash item = true)
+    (hd : thruDict (path.map (mark clash)) root = true) :
+    absKV (setSegs (path.map (mark clash)) (mark clash leaf) item root)
+      ≠ setK ((path ++ [leaf]).map plain) (absV item) (absKV root)
+    ∧ setSegs (path.map (mark clash)) (mark clash leaf) item root
+      = unNs (updateAt (insert (mark clash leaf) item) (path.map (mark clash)) (.ns root)) root := by
+  obtain ⟨h1, h2, h3⟩ := setSegs_dev _ (mark clash leaf) item root hd
+  refine ⟨fun heq => ?_, h3⟩
+  have hcan : canonKV clash (setSegs (path.map (mark clash)) (mark clash leaf) item root) = true := by
+    rw [h3]; exact canon_setSegs_dev clash _ leaf item root hc hv
+  obtain ⟨a1, a2⟩ := abs_setK clash item hv (path ++ [leaf]) root hc
+  rw [map_append_mark] at a1 a2
+  have n1 := noDict_abs clash path (.ns (setSegs (path.map (mark clash)) (mark clash leaf) item root))
+    (by simpa [canonV] using hcan)
+  have n2 := noDict_abs clash path (.ns (setK (path.map (mark clash) ++ [mark clash leaf]) item root))
+    (by simpa [canonV] using a2)
+  simp only [absV] at n1 n2
+  rw [heq, ← a1, n2, h2, h1] at n1
+  cases n1
+
+/-- `ns[key]` reads the nested dictionary unless the walk passes a dict and ends in a namespace holding the leaf -/
+theorem C11_get_refines_exact (clash : List String) (path : List String) (leaf : String) (root : KV)
+    (hc : canonKV clash root = true) (hd : devGet (path.map (mark clash)) (mark clash leaf) root = false) :
+    match getSegs (path.map (mark clash)) (mark clash leaf) root with
+    | .ok v => getK ((path ++ [leaf]).map plain) (absKV root) = some (absV v)
+    | .error e => e = .key ∧ getK ((path ++ [leaf]).map plain) (absKV root) = .none := by
+  rw [getSegs_exact _ _ _ hd, abs_getK clash (path ++ [leaf]) root hc, map_append_mark]
+  cases getK (path.map (mark clash) ++ [mark clash leaf]) root <;> simp
+
+/-- … and there it returns a value (and `in` answers `True`) where the nested dictionary holds nothing -/
+theorem C11_get_deviates (clash : List String) (path : List String) (leaf : String) (root : KV)
+    (hc : canonKV clash root = true) (hd : devGet (path.map (mark clash)) (mark clash leaf) root = true) :
+    (∃ v, getSegs (path.map (mark clash)) (mark clash leaf) root = .ok v)
+    ∧ containsSegs (path.map (mark clash)) (mark clash leaf) root = true
+    ∧ getK ((path ++ [leaf]).map plain) (absKV root) = .none := by
+  obtain ⟨h1, h2⟩ := getSegs_dev _ _ _ hd
+  refine ⟨h1, (containsSegs_dev _ _ _ hd).1, ?_⟩
+  rw [abs_getK clash (path ++ [leaf]) root hc, map_append_mark, h2]; rfl
+
+/-- `key in ns` is dictionary membership outside `devGet` -/
+theorem C11_contains_exact (clash : List String) (path : List String) (leaf : String) (root : KV)
+    (hc : canonKV clash root = true) (hd : devGet (path.map (mark clash)) (mark clash leaf) root = false) :
+    containsSegs (path.map (mark clash)) (mark clash leaf) root
+      = (getK ((path ++ [leaf]).map plain) (absKV root)).isSome := by
+  rw [containsSegs_exact _ _ _ hd, abs_getK clash (path ++ [leaf]) root hc, map_append_mark]
+  cases getK (path.map (mark clash) ++ [mark clash leaf]) root <;> rfl
+
+/-- `del ns[key]` outside `devGet`: succeeds exactly when the key is present, and removes exactly that key -/
+theorem C11_del_refines_exact (clash : List String) (path : List String) (leaf : String) (root : KV)
+    (hc : canonKV clash root = true) (hd : devGet (path.map (mark clash)) (mark clash leaf) root = false) :
+    match delSegs (path.map (mark clash)) (mark clash leaf) root with
+    | .ok r' => absKV r' = delK ((path ++ [leaf]).map plain) (absKV root)
+                ∧ (getK ((path ++ [leaf]).map plain) (absKV root)).isSome ∧ canonKV clash r' = true
+    | .error _ => getK ((path ++ [leaf]).map plain) (absKV root) = .none := by
+  obtain ⟨h1, h2⟩ := delSegs_exact _ (mark clash leaf) root hd
+  obtain ⟨a1, a2⟩ := abs_delK clash (path ++ [leaf]) root hc
+  have hg := abs_getK clash (path ++ [leaf]) root hc
+  rw [map_append_mark] at a1 a2 hg
+  cases hdl : delSegs (path.map (mark clash)) (mark clash leaf) root with
+  | ok r' =>
+    obtain ⟨e, hs⟩ := h1 r' hdl
+    subst e
+    refine ⟨a1, ?_, a2⟩
+    rw [hg]; cases hh : getK (path.map (mark clash) ++ [mark clash leaf]) root <;> simp [hh] at hs ⊢
+  | error e =>
+    have := h2 e hdl
+    simp only []
+    rw [hg, this]; rfl
+
+/-- … inside `devGet` it deletes something although the nested dictionary has no such key (it would raise) -/
+theorem C11_del_deviates (clash : List String) (path : List String) (leaf : String) (root : KV)
+    (hc : canonKV clash root = true) (hd : devGet (path.map (mark clash)) (mark clash leaf) root = true) :
+    (∃ r', delSegs (path.map (mark clash)) (mark clash leaf) root = .ok r')
+    ∧ getK ((path ++ [leaf]).map plain) (absKV root) = .none := by
+  obtain ⟨h1, h2⟩ := delSegs_dev _ _ _ hd
+  refine ⟨h1, ?_⟩
+  rw [abs_getK clash (path ++ [leaf]) root hc, map_append_mark, h2]; rfl
+
+/-- `ns.pop(key, default)` outside `devPop`: the dictionary's value or the default; the key is removed -/
+theorem C11_pop_refines_exact (clash : List String) (path : List String) (leaf : String) (dflt : V) (root : KV)
+    (hc : canonKV clash root = true) (hd : devPop (path.map (mark clash)) (mark clash leaf) root = false) :
+    ∃ v r', popSegs (path.map (mark clash)) (mark clash leaf) dflt root = .ok (v, r')
+      ∧ absKV r' = delK ((path ++ [leaf]).map plain) (absKV root)
+      ∧ (getK ((path ++ [leaf]).map plain) (absKV root) = .none → v = dflt)
+      ∧ (∀ w, getK (path.map (mark clash) ++ [mark clash leaf]) root = some w → v = w)
+      ∧ canonKV clash r' = true := by
+  obtain ⟨a1, a2⟩ := abs_delK clash (path ++ [leaf]) root hc
+  have hg := abs_getK clash (path ++ [leaf]) root hc
+  rw [map_append_mark] at a1 a2 hg
+  refine ⟨_, _, popSegs_exact _ (mark clash leaf) dflt root hd, a1, ?_, ?_, a2⟩
+  · intro h
+    rw [hg] at h
+    cases hh : getK (path.map (mark clash) ++ [mark clash leaf]) root <;> simp [hh] at h ⊢
+  · intro w hw
+    simp [hw]
+
+/-- … inside `devPop` it returns a stored value, or raises `AttributeError` (non-empty dict parent), where the nested
+    dictionary holds nothing under the key and returns the default -/
+theorem C11_pop_deviates (clash : List String) (path : List String) (leaf : String) (dflt : V) (root : KV)
+    (hc : canonKV clash root = true) (hd : devPop (path.map (mark clash)) (mark clash leaf) root = true) :
+    getK ((path ++ [leaf]).map plain) (absKV root) = .none ∧
+    ((∃ kvs v, walk (path.map (mark clash)) (.ns root) = some (.ns kvs) ∧ lookup (mark clash leaf) kvs = some v ∧
+        popSegs (path.map (mark clash)) (mark clash leaf) dflt root
+          = .ok (v, unNs (updateAt (erase (mark clash leaf)) (path.map (mark clash)) (.ns root)) root))
+     ∨ popSegs (path.map (mark clash)) (mark clash leaf) dflt root = .error .attr) := by
+  obtain ⟨h1, h2⟩ := popSegs_dev _ _ dflt _ hd
+  refine ⟨?_, h2⟩
+  rw [abs_getK clash (path ++ [leaf]) root hc, map_append_mark, h1]; rfl
+
+/-- every history none of whose operations lies in its deviating class — dicts may lie on the key paths — refines
+    the nested dictionary; `C11_refines` is the special case `safe → safeX` -/
+theorem C11_refines_exact (clash : List String) (ops : List Op) (root : KV)
+    (hc : canonKV clash root = true) (hs : safeX clash ops root = true) :
+    absKV (runC clash ops root) = runS ops (absKV root) ∧ canonKV clash (runC clash ops root) = true :=
+  run_refines_exact clash ops root hc hs
+
+theorem C11_safe_implies_exact (clash : List String) (ops : List Op) (root : KV) (h : safe clash ops root = true) :
+    safeX clash ops root = true := safeX_of_safe clash ops root h
+
+/-- `update` under the exact guard -/
+theorem C11_update_refines_exact (clash : List String) (value : KV) (pre : List String) (onlyUnset : Bool) (root : KV)
+    (hc : canonKV clash root = true)
+    (hs : safeX clash (updateOps onlyUnset pre (itemsSegs false value)) root = true) :
+    absKV (updateSegs clash value pre onlyUnset root)
+      = runS (updateOps onlyUnset pre (itemsSegs false value)) (absKV root)
+    ∧ canonKV clash (updateSegs clash value pre onlyUnset root) = true := by
+  rw [updateSegs_eq_runC]
+  exact run_refines_exact clash _ root hc hs
+
+/-! non-vacuity: with `a = {'b': {}, 'n': Namespace(x=1), 'd': {'y': 2}}` stored in the namespace,
+    `a.b.c.z` (walk fails below the dict) is NOT deviating although a dict lies on the path — the exact guard is
+    strictly weaker than `noDict` —, `a.b.z` is (`thruDict`), `a.n.x` is (`devGet`), `a.d.y` is for `pop` only -/
+example :
+    let clash := Jap.Gen.clashNames
+    let root : KV := [(mark clash "a", .dct [(plain "b", .dct []), (plain "n", .ns [(plain "x", .atom 1)]),
+                                              (plain "d", .dct [(plain "y", .atom 2)])])]
+    canonKV clash root = true
+    ∧ noDict (["a", "b", "c"].map (mark clash)) (.ns root) = false
+    ∧ thruDict (["a", "b", "c"].map (mark clash)) root = false
+    ∧ thruDict (["a", "b"].map (mark clash)) root = true
+    ∧ devGet (["a", "n"].map (mark clash)) (mark clash "x") root = true
+    ∧ devGet (["a", "d"].map (mark clash)) (mark clash "y") root = false
+    ∧ devPop (["a", "d"].map (mark clash)) (mark clash "y") root = true
+    ∧ devPop (["a", "b"].map (mark clash)) (mark clash "y") root = false
+    ∧ safe clash [.set ["a", "b", "c"] "z" (.atom 3), .pop ["a", "b"] "y", .del ["a", "d"] "y"] root = false
+    ∧ safeX clash [.set ["a", "b", "c"] "z" (.atom 3), .pop ["a", "b"] "y", .del ["a", "d"] "y"] root = true := by
+  decide
+
+
+/-! ## insertion order (every level of a namespace is a Python dict) -/
+
+/-- `ns[key] = v` on EVERY state, through dict values too: the top-level names keep their order; the root of the key is
+    appended when it is new.  The level below is again such an assignment (`setK`), so the statement holds at every depth. -/
+theorem C11_order_set (path : List SKey) (leaf : SKey) (item : V) (root : KV) :
+    keysOf (setSegs path leaf item root) =
+      if (path ++ [leaf]).headD leaf ∈ keysOf root then keysOf root else keysOf root ++ [(path ++ [leaf]).headD leaf] :=
+  keysOf_setSegs path leaf item root
+
+/-- the specification: same law at every depth (the child of `s` after `setK (s :: t :: q)` is `setK (t :: q)` of the old child) -/
+theorem C11_order_spec (s : SKey) (q : List SKey) (v : V) (d : KV) :
+    keysOf (setK (s :: q) v d) = (if s ∈ keysOf d then keysOf d else keysOf d ++ [s]) ∧
+    keysOf (delK (s :: q) d) = (if q = [] then (keysOf d).erase s else keysOf d) :=
+  ⟨keysOf_setK s q v d, keysOf_delK s q d⟩
+
+example : keysOf (setSegs [plain "b"] (plain "x") (.atom 1) [(plain "a", .atom 0), (plain "b", .atom 2), (plain "c", .none)])
+    = [plain "a", plain "b", plain "c"] := by decide
+
+/-! ## the key helpers: `split_key`, `split_key_root`, `split_key_leaf`, `".".join`, clash marks, `is_meta_key` -/
+
+open Jap.NS.Keys in
+/-- split and join are inverse: `".".join(split_key(k)) == k` for every string, and `split_key(".".join(segs)) == segs`
+    for every non-empty list of dot-free segments; the segments of a split are dot-free -/
+theorem C11_split_join (k : List Char) (segs : List (List Char)) :
+    joinDot (splitDot k) = k ∧ (∀ x ∈ splitDot k, '.' ∉ x) ∧ splitDot k ≠ [] ∧
+    (segs ≠ [] → (∀ x ∈ segs, '.' ∉ x) → splitDot (joinDot segs) = segs) :=
+  ⟨join_split k, split_nodot k, splitDot_ne_nil k, split_join segs⟩
+
+open Jap.NS.Keys in
+/-- `split_key_root` / `split_key_leaf` agree with the full split: the root is its first segment and the remainder is
+    the other segments joined again; the leaf is its last segment and the parent key the others joined again; both
+    re-join to the key -/
+theorem C11_split_root_leaf (k : List Char) :
+    joinDot (splitRoot k) = k ∧ joinDot (splitLeaf k) = k ∧
+    (∀ h t, splitDot k = h :: t →
+      (rootPair k).1 = h ∧ (rootPair k).2 = (match t with | [] => none | _ :: _ => some (joinDot t))) ∧
+    (∀ x, splitDot k = [x] → leafPair k = (none, x)) ∧
+    (∀ a b t, splitDot k = a :: b :: t →
+      leafPair k = (some (joinDot (a :: b :: t).dropLast), (a :: b :: t).getLastD [])) :=
+  ⟨join_splitRoot k, join_splitLeaf k, root_agrees k, (leaf_agrees k).1, (leaf_agrees k).2⟩
+
+open Jap.NS.Keys in
+/-- clash marks: `del_clash_mark(add_clash_mark(k)) == k` (non-empty `k` not beginning with the mark), the mark is
+    added at most once, names outside the table are stored as they are; `is_meta_key` looks at the last segment -/
+theorem C11_clash_mark_algebra (clash : List (List Char)) (c : Char) (r k : List Char) (m : List (List Char)) :
+    (c ≠ markC → delMark (addMark clash (c :: r)) = some (c :: r)) ∧
+    ((∀ n ∈ clash, n.head? ≠ some markC) → addMark clash (addMark clash k) = addMark clash k) ∧
+    (clash.contains k = false → addMark clash k = k) ∧
+    isMetaKeyC m k = m.contains ((splitDot k).getLastD []) :=
+  ⟨delMark_addMark clash c r, addMark_idem clash k, addMark_other clash k, isMetaKeyC_last m k⟩
+
+/-- the hypothesis of idempotence holds for the table regenerated from `dir(Namespace)`: no clash name begins with
+    the mark (hence `Namespace(ns)` may re-assign stored names as they are) -/
+theorem C11_clash_names_unmarked :
+    Jap.Gen.clashNames.all (fun n => n.toList.head? != some Jap.NS.Keys.markC) = true := by decide
+
+example : Jap.NS.Keys.splitDot "a..b.".toList = ["a".toList, [], "b".toList, []]
+    ∧ Jap.NS.Keys.splitRoot "a.b.c".toList = ["a".toList, "b.c".toList]
+    ∧ Jap.NS.Keys.splitLeaf "a.b.c".toList = ["a.b".toList, "c".toList]
+    ∧ Jap.NS.Keys.splitLeaf "abc".toList = ["abc".toList] := by decide
+
+/-! ## the other forms of `__init__` -/
+
+/-- `Namespace(ns)` holds the entries of `ns` in the same order (`vars(ns)` has pairwise different names) -/
+theorem C11_init_from_namespace (kvs : KV) (h : (keysOf kvs).Nodup) : fromNs kvs = kvs := fromNs_id kvs h
+
+example : fromNs [(⟨true, "keys"⟩, .atom 1), (plain "a", .ns [(plain "b", .none)])]
+    = [(⟨true, "keys"⟩, .atom 1), (plain "a", .ns [(plain "b", .none)])] := by rfl
+
+
+/-! ## type-exactness: the operations are natural in the atoms
+
+On the wire (and in the correspondence) an atom carries its Python type: ints ≥ 1000 stand for `False`, `True`, `0.0`,
+`1.0`, `"0"`, `""`, `2.0`, all others for themselves.  The theorems say that relabelling every atom by an ARBITRARY
+`f : Int → Int` commutes with every operation, for all states, keys and histories: no operation inspects, compares or
+converts a leaf.  Taking `f` non-injective (e.g. identifying `True` with `1`) shows that an `==` shortcut anywhere in
+set / get / del / pop / update — the round-5 seeds — is impossible in the model; the correspondence transports that to
+the code. -/
+
+/-- every history: relabel-then-run = run-then-relabel -/
+theorem C11_type_exact (f : Int → Int) (clash : List String) (ops : List Op) (root : KV) :
+    runC clash (ops.map (mapOp f)) (mapKV f root) = mapKV f (runC clash ops root) := runC_map f clash ops root
+
+/-- reads return the very atom that is stored: relabelled state, relabelled result, same errors -/
+theorem C11_type_exact_get (f : Int → Int) (path : List SKey) (leaf : SKey) (dflt : V) (root : KV) :
+    getSegs path leaf (mapKV f root) = (getSegs path leaf root).map (mapV f)
+    ∧ containsSegs path leaf (mapKV f root) = containsSegs path leaf root
+    ∧ popSegs path leaf (mapV f dflt) (mapKV f root)
+        = (popSegs path leaf dflt root).map (fun x => (mapV f x.1, mapKV f x.2)) :=
+  ⟨getSegs_map f path leaf root, containsSegs_map f path leaf root, popSegs_map f path leaf dflt root⟩
+
+/-- `update(<Namespace>, key, only_unset)` never compares the value it writes with the value that is there -/
+theorem C11_type_exact_update (f : Int → Int) (clash : List String) (value : KV) (pre : List String) (onlyUnset : Bool)
+    (root : KV) :
+    updateSegs clash (mapKV f value) pre onlyUnset (mapKV f root)
+      = mapKV f (updateSegs clash value pre onlyUnset root) := updateSegs_map f clash value pre onlyUnset root
+
+/-- non-vacuity, and the shape of seed C11-5A: `a = 1` then `update(Namespace(a=True))` (1001 on the wire) holds `True`;
+    a model that skipped the write because `True == 1` would violate `C11_type_exact_update` for `f = (· % 1000)` -/
+example : updateSegs [] [(plain "a", .atom 1001)] [] false [(plain "a", .atom 1)] = [(plain "a", .atom 1001)]
+    ∧ mapKV (· % 1000) [(plain "a", .atom 1001)] = [(plain "a", .atom 1)] := by
+  constructor <;> rfl
+
 /-! ## the full statement fails through dict values (open finding C11-through-dict) -/
 
 /-- `ns['a'] = {}; ns['a.keys'] = 5` writes the marked name into the caller's dict … -/
@@ -333,5 +604,324 @@ theorem C11_through_dict_counterexample :
 theorem C11_through_dict_spec :
     setK [plain "a", plain "keys"] (.atom 5) [(plain "a", .dct [])]
       = [(plain "a", .ns [(plain "keys", .atom 5)])] := by rfl
+
+/-! ## ties: the statements the model was transcribed from
+
+`Jap.Gen.NsSrc` is regenerated from /repo's `jsonargparse/_namespace.py` on every run (harness/extractors/ns_src.py:
+one string per statement, docstrings dropped, `raise X(message)` normalised to `raise X`).  Each theorem states the
+text the model was written against; an edit of any of these statements makes the theorem fail, i.e. breaks the tie and
+triggers the boosted failing-input search.  `tie_surface` pins the classified public surface: a new function of the
+module or a new attribute of `Namespace` is reported by the extractor (neither modelled nor on the not-modelled list). -/
+
+/-- `split_key` (Keys.splitDot / String.splitOn) -/
+theorem tie_src_splitKey : Jap.Gen.NsSrc.splitKey = [
+  "def split_key(key: str):",
+  "  return key.split('.')"] := rfl
+
+/-- `split_key_root` (Keys.splitRoot) -/
+theorem tie_src_splitKeyRoot : Jap.Gen.NsSrc.splitKeyRoot = [
+  "def split_key_root(key: str):",
+  "  return key.split('.', 1)"] := rfl
+
+/-- `split_key_leaf` (Keys.splitLeaf) -/
+theorem tie_src_splitKeyLeaf : Jap.Gen.NsSrc.splitKeyLeaf = [
+  "def split_key_leaf(key: str):",
+  "  return key.rsplit('.', 1)"] := rfl
+
+/-- `is_meta_key` (isMetaKey / Keys.isMetaKeyC) -/
+theorem tie_src_isMetaKey : Jap.Gen.NsSrc.isMetaKey = [
+  "def is_meta_key(key: str):",
+  "  leaf_key = split_key_leaf(key)[-1]",
+  "  return leaf_key in meta_keys"] := rfl
+
+/-- `strip_meta` (stripMeta) -/
+theorem tie_src_stripMeta : Jap.Gen.NsSrc.stripMeta = [
+  "def strip_meta(cfg):",
+  "  return recreate_branches(cfg, skip_keys=meta_keys)"] := rfl
+
+/-- `recreate_branches` (stripV/stripKV/stripL (skip_keys) and clone (no skip_keys)) -/
+theorem tie_src_recreateBranches : Jap.Gen.NsSrc.recreateBranches = [
+  "def recreate_branches(data, skip_keys=None):",
+  "  new_data = data",
+  "  if isinstance(data, (Namespace, dict)) and (not isinstance(data, OrderedDict)):",
+  "    new_data = type(data)()",
+  "    for (key, val) in (vars(data) if isinstance(data, Namespace) else data).items():",
+  "      if skip_keys is None or key not in skip_keys:",
+  "        new_data[key] = recreate_branches(val, skip_keys)",
+  "  else:",
+  "    if isinstance(data, list):",
+  "      new_data = [recreate_branches(v, skip_keys) for v in data]",
+  "    else:",
+  "      if type(data) is tuple:",
+  "        new_data = tuple((recreate_branches(v, skip_keys) for v in data))",
+  "  return new_data"] := rfl
+
+/-- `patch_namespace` (context manager that swaps argparse.Namespace) -/
+theorem tie_src_patchNamespace : Jap.Gen.NsSrc.patchNamespace = [
+  "@contextmanager",
+  "def patch_namespace():",
+  "  namespace_class = argparse.Namespace",
+  "  argparse.Namespace = Namespace",
+  "  try:",
+  "    yield",
+  "  finally:",
+  "    argparse.Namespace = namespace_class"] := rfl
+
+/-- `Namespace.__init__` (fromDict / fromNs / initKwargs) -/
+theorem tie_src_nsDunderInit : Jap.Gen.NsSrc.nsDunderInit = [
+  "def __init__(self, *args, **kwargs):",
+  "  if len(args) == 0:",
+  "    super().__init__(**kwargs)",
+  "  else:",
+  "    if len(kwargs) != 0 or len(args) != 1 or (not isinstance(args[0], (argparse.Namespace, dict))):",
+  "      raise ValueError",
+  "    for (key, val) in args[0].items() if isinstance(args[0], dict) else vars(args[0]).items():",
+  "      self[key] = val"] := rfl
+
+/-- `Namespace._parse_key` (parseKey + walk) -/
+theorem tie_src_nsPrivParseKey : Jap.Gen.NsSrc.nsPrivParseKey = [
+  "def _parse_key(self, key: str):",
+  "  if ' ' in key:",
+  "    raise NSKeyError",
+  "  key_split = split_key(key)",
+  "  if any((k == '' for k in key_split)):",
+  "    raise NSKeyError",
+  "  key_split = [add_clash_mark(k) for k in key_split]",
+  "  leaf_key = key_split[-1]",
+  "  parent_ns: Namespace = self",
+  "  parent_key = ''",
+  "  if len(key_split) > 1:",
+  "    parent_key = '.'.join(key_split[:-1])",
+  "    for subkey in key_split[:-1]:",
+  "      if hasattr(parent_ns, subkey) or (isinstance(parent_ns, dict) and subkey in parent_ns):",
+  "        parent_ns = parent_ns[subkey]",
+  "        if parent_ns is not None and (not isinstance(parent_ns, (Namespace, dict))):",
+  "          return (leaf_key, None, parent_key)",
+  "      else:",
+  "        return (leaf_key, None, parent_key)",
+  "  return (leaf_key, parent_ns, parent_key)"] := rfl
+
+/-- `Namespace._parse_required_key` (getSegs (walk + lookup)) -/
+theorem tie_src_nsPrivParseRequiredKey : Jap.Gen.NsSrc.nsPrivParseRequiredKey = [
+  "def _parse_required_key(self, key: str):",
+  "  leaf_key, parent_ns, parent_key = self._parse_key(key)",
+  "  if parent_ns is None or not hasattr(parent_ns, leaf_key):",
+  "    raise NSKeyError",
+  "  return (leaf_key, parent_ns, parent_key)"] := rfl
+
+/-- `Namespace._create_nested_namespace` (createNested) -/
+theorem tie_src_nsPrivCreateNestedNamespace : Jap.Gen.NsSrc.nsPrivCreateNestedNamespace = [
+  "def _create_nested_namespace(self, key: str):",
+  "  parent_ns = self",
+  "  for key in split_key(key):",
+  "    if not isinstance(getattr(parent_ns, key, None), Namespace):",
+  "      setattr(parent_ns, key, Namespace())",
+  "    parent_ns = getattr(parent_ns, key)",
+  "  return parent_ns"] := rfl
+
+/-- `Namespace.__setattr__` (setAttr) -/
+theorem tie_src_nsDunderSetattr : Jap.Gen.NsSrc.nsDunderSetattr = [
+  "def __setattr__(self, name: str, value: Any):",
+  "  if '.' in name:",
+  "    self.__setitem__(name, value)",
+  "  else:",
+  "    super().__setattr__(add_clash_mark(name), value)"] := rfl
+
+/-- `Namespace.__setitem__` (setItem/setSegs) -/
+theorem tie_src_nsDunderSetitem : Jap.Gen.NsSrc.nsDunderSetitem = [
+  "def __setitem__(self, key: str, item: Any):",
+  "  leaf_key, parent_ns, parent_key = self._parse_key(key)",
+  "  if parent_ns is None:",
+  "    parent_ns = self._create_nested_namespace(parent_key)",
+  "  if isinstance(parent_ns, dict):",
+  "    parent_ns[leaf_key] = item",
+  "  else:",
+  "    setattr(parent_ns, leaf_key, item)"] := rfl
+
+/-- `Namespace.__getitem__` (getItem/getSegs) -/
+theorem tie_src_nsDunderGetitem : Jap.Gen.NsSrc.nsDunderGetitem = [
+  "def __getitem__(self, key: str):",
+  "  leaf_key, parent_ns, _ = self._parse_required_key(key)",
+  "  return getattr(parent_ns, leaf_key)"] := rfl
+
+/-- `Namespace.__delitem__` (delItem/delSegs) -/
+theorem tie_src_nsDunderDelitem : Jap.Gen.NsSrc.nsDunderDelitem = [
+  "def __delitem__(self, key: str):",
+  "  leaf_key, parent_ns, _ = self._parse_key(key)",
+  "  del parent_ns.__dict__[leaf_key]"] := rfl
+
+/-- `Namespace.__contains__` (contains/containsSegs (+ non-str keys in the driver)) -/
+theorem tie_src_nsDunderContains : Jap.Gen.NsSrc.nsDunderContains = [
+  "def __contains__(self, key: str):",
+  "  if not isinstance(key, str):",
+  "    return False",
+  "  try:",
+  "    leaf_key, parent_ns, _ = self._parse_required_key(key)",
+  "  except KeyError:",
+  "    return False",
+  "  return leaf_key in parent_ns.__dict__"] := rfl
+
+/-- `Namespace.__bool__` (nonEmpty) -/
+theorem tie_src_nsDunderBool : Jap.Gen.NsSrc.nsDunderBool = [
+  "def __bool__(self):",
+  "  return bool(self.__dict__)"] := rfl
+
+/-- `Namespace.as_dict` (asDict) -/
+theorem tie_src_nsAsDict : Jap.Gen.NsSrc.nsAsDict = [
+  "def as_dict(self):",
+  "  dic = {}",
+  "  for (key, val) in vars(self).items():",
+  "    if isinstance(val, Namespace):",
+  "      val = val.as_dict()",
+  "    else:",
+  "      if isinstance(val, dict) and val != {} and all((isinstance(v, Namespace) for v in val.values())):",
+  "        val = {k: v.as_dict() for k, v in val.items()}",
+  "      else:",
+  "        if isinstance(val, list) and val != [] and all((isinstance(v, Namespace) for v in val)):",
+  "          val = [v.as_dict() for v in val]",
+  "    dic[del_clash_mark(key)] = val",
+  "  return dic"] := rfl
+
+/-- `Namespace.as_flat` (asFlat) -/
+theorem tie_src_nsAsFlat : Jap.Gen.NsSrc.nsAsFlat = [
+  "def as_flat(self):",
+  "  flat = argparse.Namespace()",
+  "  for (key, val) in self.items():",
+  "    setattr(flat, key, val)",
+  "  return flat"] := rfl
+
+/-- `Namespace.items` (items/itemsSegs) -/
+theorem tie_src_nsItems : Jap.Gen.NsSrc.nsItems = [
+  "def items(self, branches: bool=False):",
+  "  for (key, val) in vars(self).items():",
+  "    key = del_clash_mark(key)",
+  "    if isinstance(val, Namespace):",
+  "      if branches:",
+  "        yield (key, val)",
+  "      for (subkey, subval) in val.items(branches):",
+  "        yield (key + '.' + del_clash_mark(subkey), subval)",
+  "    else:",
+  "      yield (key, val)"] := rfl
+
+/-- `Namespace.keys` (keys) -/
+theorem tie_src_nsKeys : Jap.Gen.NsSrc.nsKeys = [
+  "def keys(self, branches: bool=False):",
+  "  for (key, _) in self.items(branches):",
+  "    yield key"] := rfl
+
+/-- `Namespace.values` (values) -/
+theorem tie_src_nsValues : Jap.Gen.NsSrc.nsValues = [
+  "def values(self, branches: bool=False):",
+  "  for (_, val) in self.items(branches):",
+  "    yield val"] := rfl
+
+/-- `Namespace.get_sorted_keys` (getSortedKeys) -/
+theorem tie_src_nsGetSortedKeys : Jap.Gen.NsSrc.nsGetSortedKeys = [
+  "def get_sorted_keys(self, branches: bool=True, key_filter: Callable=is_meta_key):",
+  "  keys = [k for k in self.keys() if not key_filter(k)]",
+  "  if branches:",
+  "    for key in [k for k in keys if '.' in k]:",
+  "      key_split = split_key(key)",
+  "      for num in range(len(key_split) - 1):",
+  "        parent_key = '.'.join(key_split[:num + 1])",
+  "        if parent_key not in keys:",
+  "          keys.append(parent_key)",
+  "  keys.sort(key=lambda x: -len(split_key(x)))",
+  "  return keys"] := rfl
+
+/-- `Namespace.clone` (clone) -/
+theorem tie_src_nsClone : Jap.Gen.NsSrc.nsClone = [
+  "def clone(self):",
+  "  return recreate_branches(self)"] := rfl
+
+/-- `Namespace.update` (update/update2/updateSegs) -/
+theorem tie_src_nsUpdate : Jap.Gen.NsSrc.nsUpdate = [
+  "def update(self, value: Union['Namespace', Any], key: Optional[str]=None, only_unset: bool=False):",
+  "  if not isinstance(value, Namespace):",
+  "    if not key:",
+  "      raise NSKeyError",
+  "    if not only_unset or key not in self:",
+  "      self[key] = value",
+  "  else:",
+  "    prefix = key + '.' if key else ''",
+  "    for (key, val) in value.items():",
+  "      if not only_unset or prefix + key not in self:",
+  "        self[prefix + key] = val",
+  "  return self"] := rfl
+
+/-- `Namespace.get` (get) -/
+theorem tie_src_nsGet : Jap.Gen.NsSrc.nsGet = [
+  "def get(self, key: str, default: Any=None):",
+  "  try:",
+  "    return self[key]",
+  "  except (KeyError, TypeError):",
+  "    return default"] := rfl
+
+/-- `Namespace.get_value_and_parent` (valueAndParent) -/
+theorem tie_src_nsGetValueAndParent : Jap.Gen.NsSrc.nsGetValueAndParent = [
+  "def get_value_and_parent(self, key: str):",
+  "  leaf_key, parent_ns, _ = self._parse_required_key(key)",
+  "  return (parent_ns[leaf_key], parent_ns, leaf_key)"] := rfl
+
+/-- `Namespace.pop` (pop/popSegs) -/
+theorem tie_src_nsPop : Jap.Gen.NsSrc.nsPop = [
+  "def pop(self, key: str, default: Any=None):",
+  "  leaf_key, parent_ns, _ = self._parse_key(key)",
+  "  if not parent_ns:",
+  "    return default",
+  "  return parent_ns.__dict__.pop(leaf_key, default)"] := rfl
+
+/-- `add_clash_mark` (mark / Keys.addMark) -/
+theorem tie_src_addClashMark : Jap.Gen.NsSrc.addClashMark = [
+  "def add_clash_mark(key: str):",
+  "  if key in clash_names:",
+  "    key = clash_mark + key",
+  "  return key"] := rfl
+
+/-- `del_clash_mark` (unmark / Keys.delMark) -/
+theorem tie_src_delClashMark : Jap.Gen.NsSrc.delClashMark = [
+  "def del_clash_mark(key: str):",
+  "  if key[0] == clash_mark:",
+  "    key = key[1:]",
+  "  return key"] := rfl
+
+/-- `namespace_to_dict` (namespaceToDict) -/
+theorem tie_src_namespaceToDict : Jap.Gen.NsSrc.namespaceToDict = [
+  "def namespace_to_dict(namespace: Namespace):",
+  "  return namespace.clone().as_dict()"] := rfl
+
+/-- `expand_dict` (expandDict/expandVal) -/
+theorem tie_src_expandDict : Jap.Gen.NsSrc.expandDict = [
+  "def expand_dict(cfg):",
+  "  for (k, v) in cfg.items():",
+  "    if isinstance(v, dict) and all((isinstance(k, str) for k in v.keys())):",
+  "      cfg[k] = expand_dict(v)",
+  "    else:",
+  "      if isinstance(v, list):",
+  "        for (nn, vv) in enumerate(v):",
+  "          if isinstance(vv, dict) and all((isinstance(k, str) for k in vv.keys())):",
+  "            cfg[k][nn] = expand_dict(vv)",
+  "  return Namespace(**cfg)"] := rfl
+
+/-- `dict_to_namespace` (expandDict) -/
+theorem tie_src_dictToNamespace : Jap.Gen.NsSrc.dictToNamespace = [
+  "def dict_to_namespace(cfg_dict: Union[Dict[str, Any], Namespace]):",
+  "  cfg_dict = recreate_branches(cfg_dict)",
+  "  return expand_dict(cfg_dict)"] := rfl
+
+/-- module constants and class headers -/
+theorem tie_src_consts : Jap.Gen.NsSrc.consts = [
+  "meta_keys = {'__default_config__', '__path__', '__orig__'}",
+  "class NSKeyError(KeyError)",
+  "class Namespace(argparse.Namespace)",
+  "clash_names: Set[str] = set(dir(Namespace))",
+  "clash_mark = '\\u200b'"] := rfl
+
+/-- every function of the module is pinned above (`NSKeyError.__str__` is message formatting) -/
+theorem tie_src_all_pinned : Jap.Gen.NsSrc.unpinnedFunctions = [] := rfl
+
+/-- the classified public surface of `_namespace.py`: what the model covers, and what it deliberately does not -/
+theorem tie_surface : Jap.Gen.NsSrc.surfaceModelled = ["NSKeyError", "Namespace", "Namespace.__bool__", "Namespace.__contains__", "Namespace.__delitem__", "Namespace.__eq__", "Namespace.__getitem__", "Namespace.__init__", "Namespace.__setattr__", "Namespace.__setitem__", "Namespace._create_nested_namespace", "Namespace._parse_key", "Namespace._parse_required_key", "Namespace.as_dict", "Namespace.as_flat", "Namespace.clone", "Namespace.get", "Namespace.get_sorted_keys", "Namespace.get_value_and_parent", "Namespace.items", "Namespace.keys", "Namespace.pop", "Namespace.update", "Namespace.values", "add_clash_mark", "clash_mark", "clash_names", "del_clash_mark", "dict_to_namespace", "expand_dict", "is_meta_key", "meta_keys", "namespace_to_dict", "recreate_branches", "split_key", "split_key_leaf", "split_key_root", "strip_meta"]
+    ∧ Jap.Gen.NsSrc.surfaceNotModelled = ["Namespace.__hash__", "Namespace.__repr__", "Namespace._get_args", "Namespace._get_kwargs", "patch_namespace"] := ⟨rfl, rfl⟩
 
 end Jap.Props.C11
